@@ -19,9 +19,9 @@
   The boundary.  `count : u32` is bounded by the number of counters, `16 * table.size`, and this
   is attained by tables (`C08_sketch_count_bound_tight`); so `count ≤ u32::MAX` is guaranteed
   exactly for `table.size < 2^28`, i.e. for `ensure_capacity(cap)` with `cap ≤ 2^27`
-  (`cap = 2^27 + 1` already allocates `2^28` words = 2 GiB … the 8 GiB of the design note is the
-  `2^30` maximum).  The other bound, `count ≤ Σcounters ≤ 4 * sampleSize + 3 < 2^33`, does not
-  help for such capacities.  `C08_sketch_only_count_overflow` states that for *every*
+  (`cap = 2^27 + 1` allocates `2^28` words = 2 GiB; the maximal table, `2^30` words, is 8 GiB).
+  The other bound, `count ≤ Σcounters ≤ 4 * sample_size + 3 < 2^33`, does not help for larger
+  capacities (`sample_size = min(10 * cap, i32::MAX) > 2^30` there).  `C08_sketch_only_count_overflow` states that for *every*
   capacity this `u32` counter is the only operation that can overflow.
 -/
 import MiniMoka.Lemmas.Sketch
@@ -40,11 +40,10 @@ theorem C08_sketch_wf_increment {s s' : Sketch} (hash : UInt64) (hwf : WF s)
 
 /-- Table indices are in bounds in every well-formed state with a table. -/
 theorem C08_sketch_index_in_bounds {s : Sketch} (h : WF s) (hne : s.table.size ≠ 0)
-    (hash : UInt64) (i : Nat) : s.indexOf hash i < s.table.size ∧ start hash + i < 16 ∨ 4 ≤ i := by
-  by_cases hi : i < 4
-  · have := start_le hash
-    exact Or.inl ⟨indexOf_lt h hne hash i, by omega⟩
-  · exact Or.inr (by omega)
+    (hash : UInt64) (i : Nat) (hi : i < 4) :
+    s.indexOf hash i < s.table.size ∧ start hash + i < 16 := by
+  have := start_le hash
+  exact ⟨indexOf_lt h hne hash i, by omega⟩
 
 /-- `ensure_capacity` from the default sketch: never an empty table, `10 ≤ sample_size ≤ i32::MAX`,
 at most `2^30` words, and at most `2^k` words when `cap ≤ 2^k`. -/
@@ -139,8 +138,7 @@ example : ∃ s g, runG (init 3, ghost0) (legacyHs ++ [121]) = .ok (s, g) ∧
     (s.size = 7 ∧ tableSum s.table = 28 ∧ s.sampleSize = 30) :=
   exists_of_checkRun (by decide +kernel)
 
-/-- The bound `Σcounters ≤ 4·size + 3` is attained: three recordings, then an aging step at
-capacity 0 … here simply the state before the aging step of `legacyHs`: `Σ = 116 = 4·29`. -/
+/-- `Σcounters = 4·size` is reached (every increment of `legacyHs` adds 4): `Σ = 116 = 4·29`. -/
 example : tableSum legacyState.table = 4 * legacyState.size := by decide +kernel
 
 end Sketch
